@@ -8,7 +8,7 @@ from . import common
 
 ID = "C01"
 LEVEL = "exploration"
-BUDGET = {"quick": 1000, "thorough": 240000}
+BUDGET = {"quick": 3000, "thorough": 240000}
 TECHNIQUE = "property-based testing: generated plotfiles x selector forms, bit-exact against the generator's payload"
 RULE = ("Hypothesis-generated 2D/3D plotfiles (1-3 nested levels, mixed extents, scattered / non-monotone binary "
         "layouts, special-float payloads) x ~12 queries each: field selector (name, int, numpy int, name list, "
